@@ -1,10 +1,13 @@
 package main
 
 import (
+	"encoding/json"
 	"fmt"
 	"os"
 	"time"
 )
+
+var extraCmds = map[string]func([]string){}
 
 func main() {
 	if len(os.Args) < 2 {
@@ -23,6 +26,10 @@ func main() {
 	case "run":
 		cmdRun(os.Args[2:])
 	default:
+		if f, ok := extraCmds[os.Args[1]]; ok {
+			f(os.Args[2:])
+			return
+		}
 		fmt.Println("unknown command")
 		os.Exit(2)
 	}
@@ -57,4 +64,29 @@ func hello() {
 		seq.Advance(b, eb.ValidatorUpdates, h)
 	}
 	fmt.Printf("1000 blocks in %v apphash %x vals %d\n", time.Since(t0), seq.AppHash, len(seq.cur))
+}
+
+func init() {
+	extraCmds["shrinktest"] = func(args []string) {
+		b, _ := os.ReadFile(args[0])
+		var rf ReplayFile
+		json.Unmarshal(b, &rf)
+		opt := RunOpts{Props: map[string]bool{rf.Property: true}, Fuel: rf.Fuel, Mode: rf.Mode}
+		t0 := time.Now()
+		m := Shrink(rf.Trace, rf.Signature, opt, 120*time.Second, 300)
+		fmt.Println("shrunk to", len(m.Steps), "steps", countOps(m), "ops in", time.Since(t0))
+		for i := 0; i < 3; i++ {
+			res := Replay(m, opt)
+			ok := false
+			for _, v := range res.Violations {
+				if v.Sig() == rf.Signature {
+					ok = true
+				}
+			}
+			fmt.Println("in-process replay", i, ok, res.Digest)
+		}
+		rf.Trace = m
+		ob, _ := json.MarshalIndent(rf, "", " ")
+		os.WriteFile(args[1], ob, 0o644)
+	}
 }
